@@ -455,6 +455,7 @@ class LoopRunner:
             b.assume(k < to_z3(n_total))
             item = M.sym_item(interp, b, iterable, k, node)
             interp.assign(node.target, item, b)
+        alias_items = [b.env.get(nm) for nm, _ in _loop_aliases(node)] if kind == "for" else []
         prev_env = dict(b.env)
         if not ctx.feasible(b):
             ctx.notes.append(f"{tag}: loop body unreachable under the invariant")
@@ -469,6 +470,8 @@ class LoopRunner:
         for o in body_outs:
             if o.kind in ("normal", "continue"):
                 s = o.st
+                if alias_items:
+                    write_back_loop_vars(interp, node, s, k, alias_items)
                 s.env["__prev__"] = prev_env
                 inv_state(s, (k + 1) if k is not None else None)
                 for li, lem in enumerate(spec.lemmas):
@@ -477,6 +480,8 @@ class LoopRunner:
                     c = reg.eval_clause(interp, s, clause)
                     ctx.oblige(s, c, f"{tag}.pres[{lab}]", node, "inv-pres", meta={"clause": clause}, focus=spec.focus.get(lab))
             elif o.kind == "break":
+                if alias_items:
+                    write_back_loop_vars(interp, node, o.st, k, alias_items)
                 o.st.env.pop("__entry__", None)
                 o.st.env.pop("_k", None)
                 exit_outs.append(Outcome("normal", o.st))
@@ -543,6 +548,63 @@ def _run_cut(self, interp, node, st, gl):
 
 
 LoopRunner.run_cut = _run_cut
+
+
+def _is_lvalue_path(e):
+    while isinstance(e, ast.Attribute):
+        e = e.value
+    return isinstance(e, ast.Name)
+
+
+def _loop_aliases(node):
+    """`for x in E` / `for a, b in zip(E1, E2)` over lists named by attribute paths: [(loop variable, source expression)], provided the body
+    never REBINDS a loop variable (then every change of its value is an in-place mutation of the element object, which python's loop variable
+    shares with the list).  [] when the shape is different or a variable is rebound."""
+    pairs = []
+    if isinstance(node.target, ast.Name) and _is_lvalue_path(node.iter):
+        pairs = [(node.target.id, node.iter)]
+    elif (isinstance(node.target, ast.Tuple) and all(isinstance(t, ast.Name) for t in node.target.elts) and isinstance(node.iter, ast.Call)
+          and isinstance(node.iter.func, ast.Name) and node.iter.func.id == "zip" and not node.iter.keywords
+          and len(node.iter.args) == len(node.target.elts) and all(_is_lvalue_path(a) for a in node.iter.args)):
+        pairs = [(t.id, a) for t, a in zip(node.target.elts, node.iter.args)]
+    if not pairs:
+        return []
+    names = {n for n, _ in pairs}
+    for stmt in node.body:
+        for n in ast.walk(stmt):
+            if isinstance(n, ast.Name) and isinstance(n.ctx, (ast.Store, ast.Del)) and n.id in names:
+                return []
+    return pairs
+
+
+def write_back_loop_vars(interp, node, st, k, entry_items):
+    """after one iteration: an element object mutated through the loop variable is the list's element (same object in python)"""
+    for (name, src), before in zip(_loop_aliases(node), entry_items):
+        now = st.env.get(name)
+        if now is None or before is None:
+            continue
+        try:
+            la, lb = V.leaves_of(now), V.leaves_of(before)
+        except Outside:
+            continue
+        same = len(la) == len(lb) and all((a is b) or (is_sym(a) and is_sym(b) and a.eq(b)) or (not is_sym(a) and not is_sym(b) and a == b) for a, b in zip(la, lb))
+        if same:
+            continue
+        if not isinstance(now, Rec):
+            raise Outside("a loop variable that is not a record was changed in place", node)
+        tgt = ast.Subscript(value=src, slice=ast.Name(id="_k", ctx=ast.Load()), ctx=ast.Store())
+        ast.copy_location(tgt, node)
+        ast.fix_missing_locations(tgt)
+        had = "_k" in st.env
+        old_k = st.env.get("_k")
+        st.env["_k"] = k
+        try:
+            interp.assign(tgt, now, st)
+        finally:
+            if had:
+                st.env["_k"] = old_k
+            else:
+                st.env.pop("_k", None)
 
 
 def _assigned_names(loop_node):
